@@ -44,13 +44,17 @@ def _totuple(x):
 
 def run(pid: str, tier: str) -> int:
     which = "c01" if pid == "C01" else "c06"
+    plans = PLANS[tier]
+    if tier == "quick" and which == "c01":
+        # the 'unsorted' seed exists for the rejected-sort case of C06; C01's quick tier skips it
+        plans = [([s for s in seeds if s != "unsorted"], plan, caps) for seeds, plan, caps in plans]
     r = common.Run(pid, "model_checking", tier)
     total_states = total_trans = total_raise = 0
     per_op: dict[str, list[int]] = {}
     plans_done = []
     raising_sigs = set()
     nontrivial = 0
-    for seeds, plan, caps in PLANS[tier]:
+    for seeds, plan, caps in plans:
         def lvl(depth, res, nfront, plan=plan):
             common.eprint(f"  [{pid}] plan={['+'.join(g) if g != ALL else 'ALL' for g in plan]} depth={depth} states={res.states} transitions={res.transitions} frontier={nfront}")
 
